@@ -83,7 +83,7 @@ def oracle(line, evs, meta):
 def run(chk):
     chk.prove(["Props/Properties_C01.v"])
     role_tie(chk)
-    n = 250 if chk.tier == "quick" else 20000
+    n = 1200 if chk.tier == "quick" else 60000
     cases = [sc.gen_convergence(chk.rng, i) for i in range(n)]
     sc.run_sim(chk, cases, oracle, "sim-C01")
     return chk.finish(**FINISH)
